@@ -138,6 +138,64 @@ class GreedyBestCandidate(FragmentContract):
         return replay_fragment_generic(self._world, self, cfg, env)
 
 
+class GreedyApplyBest(FragmentContract):
+    """C20 (application step of greedy_substitution; the `if best_motif_idx != -1:` statement after the motif loop): the
+    candidate that was recorded is the one that is applied - the new sequence is the old one with exactly
+    motifs[best_motif_idx] written at best_pos (contract of ersatz.substitute, C01) and loss_prev becomes the loss that was
+    recorded for it; when no candidate improved (best_motif_idx == -1) neither the sequence nor loss_prev changes."""
+    qualname = 'tangermeme.design.greedy_substitution'
+    props = ('C20',)
+    stmt_block = ('if best_motif_idx', 1)
+    key = 'tangermeme.design.greedy_substitution#apply-best'
+
+    def configs(self):
+        return [dict(best=b) for b in (-1, 0, 1, 2)]
+
+    def scopes(self, cfg):
+        return [{'default': 3}, {'default': 2}]
+
+    def make_env(self, cfg, A):
+        from vf.values import SStr, Opaque
+        X = A.onehot('X', 3)
+        n = X.shape[1]
+        A.assume(n >= 2)
+        motifs = []
+        q = z3.Int('cq')
+        for k in range(3):
+            m = SStr('motif%d' % k)
+            A.assume(m.length >= 1)
+            A.assume(z3.ForAll([q], And(m.code(q) >= 0, m.code(q) < n), patterns=[m.code(q)]))
+            motifs.append(m)
+        best = cfg['best']
+        pos = A.int('best_pos')
+        if best >= 0:
+            # established by the selection step: a fitting position of that motif
+            A.assume(pos >= 0, pos + motifs[best].length <= X.shape[2])
+        bl, lp = A.real('best_loss'), A.real('loss_prev')
+        # postcondition of the selection step (#best-candidate, clause `replaced`): best_improvement = loss_prev - best_loss
+        bi = lp - bl if best >= 0 else A.real('best_improvement')
+        return dict(X=X, motifs=motifs, alphabet=Opaque('alphabet', 'alphabet', {'n': n}), best_motif_idx=best, best_pos=pos,
+                    best_loss=bl, loss_prev=lp, best_improvement=bi,
+                    verbose=False, iteration=A.int('iteration', lo=0))
+
+    def post_env(self, b, a, outcome, cfg):
+        from vf.contract import same
+        out = [('no-exception', not outcome.startswith('raise'))]
+        if not out[0][1]:
+            return out
+        k = cfg['best']
+        if k == -1:
+            out.extend(same(a.X, b.X, 'sequence-unchanged'))
+            out.append(('loss-unchanged', O.eq(a.loss_prev, b.loss_prev)))
+            return out
+        m, s, X = b.motifs[k], b.best_pos, b.X
+        spec = spec_tensor(X.shape, lambda e, c, p: ite(And(s <= p, p < s + m.length), ite(O.eq(c, m.code(p - s)), 1, 0), X[e, c, p]))
+        out.extend(same(a.X, spec, 'recorded-motif-at-recorded-position'))
+        out.append(('loss-is-the-recorded-one', O.eq(a.loss_prev, b.best_loss)))
+        return out
+
+
 def register(world):
     world.register(FastTileSubstitute())
     world.register_fragment(GreedyBestCandidate())
+    world.register_fragment(GreedyApplyBest())
